@@ -316,7 +316,16 @@ func (d Duration) Binary(op syntax.Token, y starlark.Value, side starlark.Side) 
 			if y == 0 {
 				return nil, fmt.Errorf("%s division by zero", d.Type())
 			}
-			return starlark.MakeInt64(x.Nanoseconds() / time.Duration(y).Nanoseconds()), nil
+			// floored division, as for int // int
+			xn, yn := x.Nanoseconds(), time.Duration(y).Nanoseconds()
+			if yn == -1 {
+				return starlark.MakeInt64(0).Sub(starlark.MakeInt64(xn)), nil // avoid overflow of MinInt64 / -1
+			}
+			q := xn / yn
+			if xn%yn != 0 && (xn < 0) != (yn < 0) {
+				q--
+			}
+			return starlark.MakeInt64(q), nil
 		}
 
 	case syntax.STAR:
